@@ -238,7 +238,8 @@ def gen_file(case):
                 pats.append({"kind": "clone", "source": int(slot[1:]), "flags_PFFF": 1, "x": 100 + k_, "y": 5 - k_})
     if case.get("cell_module") is not None:
         for pt in pats:
-            pt["cells"][1][0] = [33, 64, case["cell_module"], 0x0203, 0x0405]
+            if pt is not None and pt.get("kind") != "clone":
+                pt["cells"][1][0] = [33, 64, case["cell_module"], 0x0203, 0x0405]
     p = absdev.make_project(name="gen", modules=mods, patterns=pats)
     if "versions" in case:
         p["sunvox_version"], p["based_on_version"] = case["versions"]
@@ -269,7 +270,7 @@ def check_file(data, case, key):
 
 # ----------------------------------------------------------------------------- (c) edits
 def positions_for_insert(chunks):
-    return range(1, len(chunks) + 1)
+    return range(0, len(chunks) + 1)     # "anywhere in the stream": also in front of the SVOX / SSYN chunk
 
 
 def edits(data, nested=True):
@@ -277,7 +278,7 @@ def edits(data, nested=True):
     chunks = codec.parse_chunks(data)
     for pos in positions_for_insert(chunks):
         new = chunks[:pos] + [UNKNOWN] + chunks[pos:]
-        yield f"insert@{pos}", "insert:" + chunks[pos - 1][0].decode("latin1") + "|" + (chunks[pos][0].decode("latin1") if pos < len(chunks) else "EOF"), codec.build_chunks(new), "insert"
+        yield f"insert@{pos}", "insert:" + (chunks[pos - 1][0].decode("latin1") if pos else "BOF") + "|" + (chunks[pos][0].decode("latin1") if pos < len(chunks) else "EOF"), codec.build_chunks(new), "insert"
     for i, (cid, d) in enumerate(chunks):
         if cid in OPTIONAL:
             yield f"drop@{i}:{cid.decode()}", "drop:" + cid.decode(), codec.build_chunks(chunks[:i] + chunks[i + 1:]), "drop"
@@ -529,6 +530,13 @@ def gen_cases(ctx):
                               "cell_module": cm})
     for slots in (["c2", "p", "p", "c1"], ["c1", "p"], [None, "c2", "p", None, "c2"], ["p", "c0", "c0"], ["c3", "c3", None, "p"]):
         cases.append({"g": "project", "mods": [["Amplifier", []]], "pattern_slots": slots})
+    # ... and both together: every pattern of an old-version file is read with the narrow module column, wherever it sits
+    # in the pattern table (after a hole, after a clone, before its clones)
+    for slots in (["p", None, "p"], ["p", "c0", "p"], [None, "p", "p"], ["c1", "p", None, "p"], ["p", "p", "c1", None, "p"]):
+        for vers in (V["old"], V["new"]):
+            for cm in (0x0023, 0x5A05):
+                cases.append({"g": "project", "mods": [["Amplifier", []]], "pattern_slots": slots, "versions": [vers, None],
+                              "cell_module": cm})
     # module flag words a foreign writer may have left: the "output" bit on an ordinary module, module 0 without it, all bits
     for out_w in (None, 0x41, 0x0, 0xC3):
         for mod_w in (0x53, 0x02, 0x51 | 0x4000, 0xFFFFFFFF, 0):
